@@ -64,6 +64,11 @@ pub fn migrate(from: &Path, mut to: Options, overwrite: bool, force_migrate: &[u
 				"Migrate only implemented for hash indexed column to hash indexed column".into(),
 			))
 		}
+		// Only the indexed values are re-committed: the nodes of a multitree column and their
+		// reference counts would be lost.
+		if source_options.columns[*c as usize].multitree || to.columns[*c as usize].multitree {
+			return Err(Error::Migration("Migrate not implemented for multitree columns".into()))
+		}
 	}
 
 	for c in 0..source_options.columns.len() as ColId {
